@@ -189,7 +189,9 @@ def model_family(ck, harness, hist):
                     else:
                         q.append(c08.rand_row(rnd, "wild"))
                 c["query"] = q
-                lines.append("MODEL " + c08.case_line("T", c)[2:])
+                # class labels as they come from real data sets: inner / leading / trailing blanks, tabs, digits only,
+                # blank-only, empty (they are saved one per line)
+                lines.append("MODEL " + c08.case_line("T", c)[2:] + " L%d" % rnd.choice([0, 1, 1, 2, 3, 4, 5, 6, 7, 8]))
     if not lines:
         return
     out, crashes = sc.run_harness_chunks(harness, lines, 40)
@@ -220,10 +222,13 @@ def model_family(ck, harness, hist):
         else:
             ntrain = int(w[5 + int(w[5]) + 1])
             for j in range(n):
-                a, b = pw[1 + 2 * j], pw[2 + 2 * j]
+                a, b, na, nb = pw[1 + 4 * j: 5 + 4 * j]
                 if a != b:
                     problems.append("query %d (%s): original model predicts %s, reloaded model predicts %s"
                                     % (j, "a training row" if j < ntrain else "unseen input", a, b))
+                elif na != nb:
+                    problems.append("query %d: the prediction is named %r by the original model and %r by the reloaded one"
+                                    % (j, sc.unhex(na).decode("latin1"), sc.unhex(nb).decode("latin1")))
             if text2 != text:
                 problems.append("saving the reloaded model yields different bytes")
         if problems:
